@@ -108,9 +108,11 @@ def cmd_check(args):
     # --- violations: minimise, write replay, confirm in a fresh process ----
     reported = []
     seen_inv = {}
+    unreproduced = []
+    tried_unrepro = {}
     for cls, idx, res in agg.violations:
         inv = res.get("invariant")
-        if seen_inv.get(inv, 0) >= 2:
+        if seen_inv.get(inv, 0) >= 2 or tried_unrepro.get(inv, 0) >= 6:
             continue
         seen_inv[inv] = seen_inv.get(inv, 0) + 1
         sc = res.get("scenario")
@@ -123,11 +125,18 @@ def cmd_check(args):
         if again.get("verdict") != "violation" or \
                 again.get("invariant") != inv or \
                 again.get("digest") != res.get("digest"):
-            lines.append("HARNESS-ERROR property=%s class=%s run=%s "
-                         "nondeterministic: rerun gave %s/%s (was %s)" %
-                         (prop, cls, idx, again.get("verdict"),
-                          again.get("invariant"), inv))
-            exit_code = 2
+            # not reproduced by the same scenario in another process: either
+            # the harness is nondeterministic or the failure depends on
+            # something no seam controls (object addresses: code keyed by
+            # id()). Never a pass; reported as a harness error unless
+            # another run of the batch gives a replayable violation.
+            unreproduced.append(
+                "HARNESS-ERROR property=%s class=%s run=%s "
+                "nondeterministic: rerun gave %s/%s (was %s)" %
+                (prop, cls, idx, again.get("verdict"),
+                 again.get("invariant"), inv))
+            seen_inv[inv] -= 1
+            tried_unrepro[inv] = tried_unrepro.get(inv, 0) + 1
             continue
         sh = shrink.Shrinker(evalfn, inv,
                              max_evals=args.shrink_evals,
@@ -158,18 +167,25 @@ def cmd_check(args):
                             "replay", path], env=env, capture_output=True,
                            text=True, timeout=300)
         if p.returncode != 1 or "VIOLATION property=%s" % prop not in p.stdout:
-            lines.append("HARNESS-ERROR property=%s replay %s did not "
-                         "reproduce in a fresh process (rc=%s)" %
-                         (prop, path, p.returncode))
-            exit_code = 2
+            unreproduced.append(
+                "HARNESS-ERROR property=%s replay %s did not reproduce in a "
+                "fresh process (rc=%s)" % (prop, path, p.returncode))
+            try:
+                os.unlink(path)
+            except OSError:
+                pass
+            seen_inv[inv] -= 1
+            tried_unrepro[inv] = tried_unrepro.get(inv, 0) + 1
             continue
         lines.append("VIOLATION property=%s replay=%s" % (prop, path))
         lines.append("  invariant=%s detail=%s" % (
             inv, json.dumps(final.get("detail"), default=repr)[:600]))
         reported.append(dict(invariant=inv, replay=path,
                              detail=final.get("detail")))
-        if exit_code == 0:
-            exit_code = 1
+        exit_code = 1      # a confirmed violation outranks harness errors
+    lines.extend(unreproduced[:8])
+    if unreproduced and not reported:
+        exit_code = 2
     if agg.nviol and not reported and exit_code == 0:
         exit_code = 2
         lines.append("HARNESS-ERROR property=%s violations seen but none "
